@@ -1204,7 +1204,8 @@ def run(chk):
         'but mute, are outside the model']
     for m in ('Router', 'Gen_Router', 'Trace_Router'):
         sany(m)
-    thunks = [lambda: model_check('Router', 'MC_Router_quick.cfg' if quick else 'MC_Router_thorough.cfg', timeout=900)]
+    thunks = [lambda: model_check('Router', 'MC_Router_quick.cfg', timeout=900, workers=1) if quick else
+              model_check('Router', 'MC_Router_thorough.cfg', timeout=1500)]
     if not quick:
         thunks.append(lambda: model_check('Router', 'MC_Router_coll.cfg', timeout=900))
     nmc = len(thunks)
